@@ -29,7 +29,7 @@ type RunReport struct {
 	WallS        float64                `json:"wall_s"`
 }
 
-var gSuffix string
+var gSuffix, gBackend, gFocus string
 
 func writeFile(path, content string) {
 	if err := os.MkdirAll(filepath.Dir(path), 0o755); err != nil {
@@ -70,6 +70,8 @@ func main() {
 	suffix := fs.String("suffix", "", "suffix of the report/cases file names")
 	fs.Parse(os.Args[2:])
 	gSuffix = *suffix
+	gBackend = *backend
+	gFocus = *focus
 	_ = replay
 	_ = prop
 	_ = tier
